@@ -356,6 +356,14 @@ class SymSeq(Model):
       ip.ctx.assume(z3.ForAll([i], z3.Implies(z3.And(0 <= i, i < n), new[i] == old[i])))
     self.set_term(ip, new)
 
+  def py_insert(self, ip, i, v):
+    from .values import znum
+    i = znum(i)
+    n = self.length()
+    i = z3.If(i < 0, z3.If(i + n < 0, 0, i + n), z3.If(i > n, n, i))
+    self.set_term(ip, z3.Concat(z3.SubSeq(self.term, 0, i), z3.Unit(self.ty.enc(ip, v)),
+                                z3.SubSeq(self.term, i, n - i)))
+
   def py_appendleft(self, ip, v):
     self.set_term(ip, z3.Concat(z3.Unit(self.ty.enc(ip, v)), self.term))
 
